@@ -283,3 +283,14 @@ CLAIMS["C32"] = (
     "6/C32", TRUSTED + "; 'random large arguments' of the property are not covered: results beyond TLC's 32-bit "
     "integers are not decided",
     "TLA+ definitions (module NT) + TLC trace validation")
+
+CLAIMS["C37"] = (
+    "model_checking",
+    "TLC enumerates lists of one to three expressions built around 14 shared parts (sub-sums, sub-products, powers, "
+    "functions) in 15 contexts, and lists whose own symbols are named like replacement symbols (x0, x1); TLC "
+    "validates that every replacement symbol is a symbol absent from the inputs and that they are pairwise "
+    "distinct, that each replacement mentions replacement symbols of smaller index only, that substituting back "
+    "last to first (xreplace on the real objects) returns objects equal to the inputs, and independently that each "
+    "reduced expression evaluated in the environment extended by the replacements in order has the value of its "
+    "input",
+    "6/C37", TRUSTED, "TLA+ contract (freshness, ordering, denotational faithfulness) + TLC trace validation")
